@@ -228,6 +228,35 @@ def case_pairs(spec):
                 probs.append("(lon=%.17g, lat=%.17g) depth %d: returned pixel (x=%.2f, y=%.2f) of tile %s, nearest pixel centre is (x=%d, y=%d)" % (lo, la, d, x, y, tuple(tile.pos), ix, iy))
         if len(probs) > 4:
             break
+    # the least-squares solver fails now and then (SVD did not converge): a pixel lookup may then raise, but an answer it
+    # does return must still be right
+    real_lstsq = np.linalg.lstsq
+    calls = [0]
+
+    def flaky_lstsq(*a, **k):
+        calls[0] += 1
+        if calls[0] % 3 == 0:
+            raise np.linalg.LinAlgError("SVD did not converge (injected)")
+        return real_lstsq(*a, **k)
+
+    np.linalg.lstsq = flaky_lstsq
+    try:
+        for _ in range(6):
+            d = R.choice([3, 6, 10])
+            lo, la = R.uniform(0.1, 6.1), math.asin(R.uniform(-0.8, 0.8))
+            try:
+                tile, x, y = toast.toast_pixel_for_point(d, la, lo, coordsys=cs)
+            except np.linalg.LinAlgError:
+                continue
+            n += 1
+            glon, glat = toast.toast_tile_get_coords(tile)
+            dl = (glon - lo + math.pi) % (2 * math.pi) - math.pi
+            dist = (dl * math.cos(la)) ** 2 + (glat - la) ** 2
+            iy, ix = np.unravel_index(np.argmin(dist), dist.shape)
+            if max(abs(x - ix), abs(y - iy)) > 2:
+                probs.append("with a solver that fails now and then, (lon=%.10g, lat=%.10g) depth %d returned pixel (x=%.2f, y=%.2f); nearest pixel centre is (x=%d, y=%d)" % (lo, la, d, x, y, ix, iy))
+    finally:
+        np.linalg.lstsq = real_lstsq
     # the same position given in other numeric types (Python int, numpy scalars, float32 where exactly representable)
     for la_i, lo_i in ((0, 1), (1, 2), (-1, 4), (0, 0), (np.int64(0), np.float64(2.5)), (np.float32(0.5), np.float32(1.5)), (1, np.int64(3))):
         for d in (2, 5, 9):
